@@ -1,4 +1,28 @@
+use mc_common::cli;
+use mc_world::checks;
+
 fn main() {
-	let _args = mc_common::cli::parse();
-	mc_common::cli::die("engine not built yet");
+	let args = cli::parse();
+	mc_common::par::install_quiet_panic_hook();
+	if let Some(path) = &args.replay {
+		let text = std::fs::read_to_string(path).unwrap_or_else(|_| cli::die("cannot read replay file"));
+		let v: mc_common::Value = mc_common::serde_json::from_str(&text).unwrap_or_else(|_| cli::die("replay file is not JSON"));
+		let prop = v["property"].as_str().unwrap_or("").to_string();
+		let name = v["replay"]["scenario_name"].as_str().unwrap_or("").to_string();
+		let actions: Vec<String> = v["replay"]["actions"]
+			.as_array()
+			.map(|a| a.iter().filter_map(|x| x.as_str().map(|s| s.to_string())).collect())
+			.unwrap_or_default();
+		mc_common::par::set_quiet(false);
+		let code = match prop.as_str() {
+			"C01" => checks::c01::replay(&name, &actions),
+			_ => cli::die("replay: unknown property"),
+		};
+		std::process::exit(code);
+	}
+	let code = match args.property.as_str() {
+		"C01" => checks::c01::run(&args),
+		p => cli::die(&format!("property {} is not served by mc-world", p)),
+	};
+	std::process::exit(code);
 }
